@@ -137,7 +137,10 @@ def check_copy(c, cp, wr):
             ws = cfg_nodes_with_call(cp, lambda kk: callee_last(kk).endswith('__interact_writen'))
             c.need(len(ws) >= 1, 'no write towards the child found')
             for wn, wk in ws:
-                c.check(norm(wk.args[0]) == 'self.child_fd' and is_name(wk.args[1], v), cp, wk, 'keyboard input goes to the child\'s descriptor, as read',
+                a1 = wk.args[1]
+                as_read = is_name(a1, v) or (isinstance(a1, ast.Subscript) and is_name(a1.value, v) and slice_bounds(a1) is not None
+                                             and slice_bounds(a1)[0] is None and slice_bounds(a1)[2] is None)     # v or the prefix v[:i] (escape branch, checked by D4)
+                c.check(norm(wk.args[0]) == 'self.child_fd' and as_read, cp, wk, 'keyboard input goes to the child\'s descriptor, as read',
                         witness=norm(wk), kind='flow', tag='stdin-to-child:%d' % ws.index((wn, wk)))
             check_only_filter(c, cp, g, n, None, v, 'input_filter', 'stdin-filter')
             okp, p = g.must_pass(n, {nn for nn, _ in reads if nn is not n} | {g.exit}, set(wn for wn, _ in ws), skip_labels=('exc',))
@@ -213,13 +216,20 @@ def check_escape(c, f, cp):
     tt = [t for t in g.nodes if t.kind == 'test' and norm(t.ast) in ('%s != -1' % iv, '%s >= 0' % iv, '%s > -1' % iv)]
     c.need(len(tt) == 1, 'escape test not found')
     reg = guard_region(g, tt[0], 'true')
+
+    def is_prefix(e):
+        sb_ = slice_bounds(e) if isinstance(e, ast.Subscript) else None
+        return sb_ is not None and norm(e.value) == dv and sb_[0] is None and sb_[2] is None and is_name(sb_[1], iv)
     cut = [n for n in reg if n.kind == 'stmt' and isinstance(n.ast, ast.Assign) and dv in assigned_names(n.ast)]
-    ok = len(cut) == 1 and slice_bounds(cut[0].ast.value) is not None and norm(cut[0].ast.value.value) == dv and \
-        slice_bounds(cut[0].ast.value)[0] is None and is_name(slice_bounds(cut[0].ast.value)[1], iv)
-    c.check(ok, cp, cut[0].ast if cut else tt[0].ast, 'only the prefix data[:i] before the escape character is kept', witness=norm(cut[0].ast) if cut else '', kind='alg', tag='prefix')
     ws = [n for n in reg if any(callee_last(k).endswith('__interact_writen') for k in node_calls(n))]
+    wargs = [k.args[1] for n in ws for k in node_calls(n) if callee_last(k).endswith('__interact_writen') and len(k.args) == 2]
+    via_cut = len(cut) == 1 and is_prefix(cut[0].ast.value) and len(wargs) == 1 and norm(wargs[0]) == dv and bool(ws) and g.dominated_by(ws[0], {cut[0]})[0]
+    direct = not cut and len(wargs) == 1 and is_prefix(wargs[0])
+    c.check(via_cut or direct, cp, (cut[0].ast if cut else (ws[0].ast if ws else tt[0].ast)),
+            'what reaches the child from this read is exactly the prefix data[:i] before the escape character (the escape character and what follows are dropped)',
+            witness='cut: %s; written: %s' % ([norm(x.ast) for x in cut], [norm(x) for x in wargs]), kind='alg', tag='prefix')
     brk = [n for n in reg if n.kind == 'stmt' and isinstance(n.ast, ast.Break)]
-    ok = len(ws) == 1 and len(brk) == 1 and bool(cut) and g.dominated_by(ws[0], {cut[0]})[0] and g.dominated_by(brk[0], {ws[0]})[0]
+    ok = len(ws) == 1 and len(brk) == 1 and g.dominated_by(brk[0], {ws[0]})[0]
     c.check(ok, cp, ws[0].ast if ws else tt[0].ast, 'the prefix is delivered to the child, then interact returns', tag='deliver-then-leave')
     # after the break nothing more is written: the only successor is loop exit (structural by Break)
     # interact(): escape_character is converted to bytes once, and passed on
@@ -256,4 +266,7 @@ MUTANTS = [
     ('eio-raises', 'pty_spawn', "                    if err.args[0] == errno.EIO:\n                        # Linux-style EOF\n                        break\n                    raise\n                if data == b'':", "                    raise\n                if data == b'':", 'D6'),
     ('stdin-strip', 'pty_spawn', "                if input_filter:\n                    data = input_filter(data)\n                i = -1", "                if input_filter:\n                    data = input_filter(data)\n                data = data.replace(b'\\r\\n', b'\\n')\n                i = -1", 'D3'),
 ]
-PRESERVING = []
+PRESERVING = [
+    ('escape-prefix-inline', 'pty_spawn', "                    data = data[:i]\n                    if data:\n                        self._log_control(data)\n                    self.__interact_writen(self.child_fd, data)\n                    break",
+     "                    if data[:i]:\n                        self._log_control(data[:i])\n                    self.__interact_writen(self.child_fd, data[:i])\n                    break"),
+]
